@@ -11,25 +11,21 @@
   co-located).  Replica counts are parameters everywhere; batch modes do not appear (C02: batching
   is invisible at element-sequence level).
 
-  The composition theorem `parEval_perm_seqEval` covers jobs (arbitrary DAGs: fan-out = several
-  references to one node, fan-in = `merge`, several sinks) built from: sources (`iter`, `par`),
-  `map` / `filter` / `flat_map`, `shuffle`, `replication`, `repartition_by`, `group_by`, keyed
-  `map` / `filter` / `fold`, `unkey`, `drop_key`, global `fold`, `reduce`, `fold_assoc` (two-phase), `merge`,
-  `route`, sinks.  `OrderInsensitive` (= `orderInsensitive job = true`) EXCLUDES:
-    * count windows and `zip` (order sensitive: they observe the arrival order, which is schedule
-      dependent after any fan-in; the generator only uses them on single-producer paths),
-    * `key_by` (no repartitioning: a following keyed fold is deployment dependent unless the stream
-      has one replica) and the keyed join (needs co-partitioning of two streams),
-    * `replay` / `iterate` (evaluated by `seqEval`, exercised end to end; no parallel theorem),
-    * stages whose stage law is proved below but which are not yet wired into the composition proof:
-      `reduce_assoc`, keyed `reduce`, `group_by_fold/reduce/sum/count` (`keyed_twoPhase`), joins (`join_copartitioned`,
-      `join_broadcastRight`), `broadcast` (`route_conserves_broadcast`).
-  Non-commutative user folds are outside the function library altogether (every `Agg` is
-  right-commutative: `agg_rightComm`).
+  The composition theorem (`parEval_perm_seqEval_covered`, `parEval_perm_seqEval`) holds for arbitrary
+  DAGs (fan-out = several references to one node, fan-in = `merge` / joins, several sinks) and is stated
+  per sink: a sink is covered iff no stage upstream of it is outside the theorem; the exact list of
+  covered node kinds stands next to the theorem (section "Composition").  NOT covered: count windows
+  with an order-sensitive aggregate and `zip` (they observe the arrival order, which is schedule
+  dependent after any fan-in; the generator only uses them on single-producer paths; windows with the
+  counting aggregate ARE covered: `countWindow_cnt_orderInsensitive`), the keyed join, a keyed fold /
+  reduce of a keyed stream that is not co-located (`key_by` of a multi-replica stream) and
+  `broadcast` + a non-idempotent reduction (both genuinely deployment dependent).  Loops are covered:
+  `replay_iterate_seq`.  Non-commutative user folds are outside the function library altogether (every
+  `Agg` is right-commutative: `agg_rightComm`).
 
   FULL STATEMENT (C01): for every job of the operator algebra, every input, every parallelism / host
   layout / batch mode / schedule, each sink receives the multiset `seqEval` assigns to it.  Proved
-  here for the fragment above on the model (`parEval_perm_seqEval`); the remaining operators and the
+  here on the model for every covered sink (`parEval_perm_seqEval_covered`); windows / zip / keyed join and the
   step from real threads / TCP to the model's routing-and-merge abstraction are covered by the
   sampled end-to-end correspondence (component `e2e`) and by C02/C03/C05.
 -/
@@ -117,11 +113,8 @@ theorem keyed_twoPhase (g : Agg) (k : V) (parts : D) (ps : List Int)
 /-- **join_broadcastRight**: with the right side broadcast to every replica, the union of the
     per-replica inner / left joins is the join of the whole left side with the right side. -/
 theorem join_broadcastRight (v : JVar) (hv : v ≠ .outer) (k1 k2 : V → V) (x : D) (rs : List V) :
-    (x.map fun l => joinS v k1 k2 l rs).flatten = joinS v k1 k2 x.flatten rs := by
-  apply flatten_map_hom (fun l => joinS v k1 k2 l rs)
-  · cases v <;> simp [joinS] at hv ⊢
-  · intro a b
-    cases v <;> simp [joinS] at hv ⊢
+    (x.map fun l => joinS v k1 k2 l rs).flatten = joinS v k1 k2 x.flatten rs :=
+  flatten_map_join_right v hv k1 k2 x rs
 
 /-- **join_copartitioned**: if both inputs are partitioned by the same hash of their join keys
     (`CoPart h key n 0 d`: every element of replica `j` has `h (key e) % n = j`) over equally many
@@ -142,21 +135,155 @@ theorem split_copies (n : Nat) (d : D) : ∀ b ∈ replicate n d, b.flatten.Perm
   intro b hb
   rw [(mem_replicate.mp hb).2]
 
-/-! ### Composition -/
+/-! ### Further stage laws (two-phase reductions, keyed two-phase stages, broadcast, loops) -/
 
-/-- **parEval_perm_seqEval**: for every job of the order-insensitive fragment (any DAG, any input —
-    the sources are part of the job), every replica-count parameter and every schedule (hash
-    function, routing choices, arrival orders), the parallel evaluator delivers to the same sinks,
-    in the same order of sinks, a permutation of what the sequential evaluator delivers. -/
+/-- **copartition by any key function**: hash routing by `h (key e)` puts every element on replica
+    `h (key e) % n` — the hypothesis of `join_copartitioned`, for both inputs of a hash-shipped join. -/
+theorem exchange_copartitions (h : V → Nat) (key : V → V) (n : Nat) (c : Nat → Nat) (d : D) :
+    CoPart h key n 0 (exchange n (fun _ v => h (key v)) c d) :=
+  copart_exchange h key n c d
+
+/-- **reduce_assoc**: reduce every replica, gather the partial results in any order, reduce again =
+    the reduction of the whole stream. -/
+theorem reduceAssoc_twoPhase (g : Agg) (c : Nat → Nat) (d : D) :
+    reduceS g (permBy c (d.map (reduceS g)).flatten) = reduceS g d.flatten :=
+  reduce_partials g c d
+
+/-- **group_by_fold / group_by_sum / group_by_count as a stage**: keyed local fold per producer
+    replica, union, keyed combination = keyed fold of the union (any partition). -/
+theorem groupByFold_twoPhase (g : Agg) (parts : D) :
+    (keyedCombineS g (parts.map (keyedFoldS g)).flatten).Perm (keyedFoldS g parts.flatten) := by
+  have e1 : keyedFoldS g = keyedGen (ψFold g) := funext (keyedFoldS_gen g)
+  have e2 : keyedCombineS g = keyedGen (ψComb g) := funext (keyedCombineS_gen g)
+  rw [e1, e2]
+  exact keyedGen_twoPhase (keyedFn_fold g) (ψFold_ne g) (fold_law g) parts
+
+/-- **group_by_reduce as a stage**. -/
+theorem groupByReduce_twoPhase (g : Agg) (parts : D) :
+    (keyedReduceS g (parts.map (keyedReduceS g)).flatten).Perm (keyedReduceS g parts.flatten) := by
+  have e1 : keyedReduceS g = keyedGen (ψRed g) := funext (keyedReduceS_gen g)
+  rw [e1]
+  exact keyedGen_twoPhase (keyedFn_red g) (ψRed_ne g) (red_law g) parts
+
+/-- **broadcast**: a sink (or any per-replica identity stage) behind a broadcast link sees every
+    element once per replica of the consumer block — `cfg.count .u` copies on deployment `cfg`; the
+    result is therefore deployment dependent unless an idempotent stage follows
+    (`broadcast_idempotent`). -/
+theorem broadcast_sink_copies (cfg : Cfg) (c c' : Nat → Nat) (d : D) :
+    (gather c' (broadcast (cfg.count .u) c d)).flatten.Perm (replicate (cfg.count .u) d.flatten).flatten :=
+  (gather_perm c' _).trans (broadcast_perm _ c d)
+
+/-- **broadcast + idempotent reduction** (`min` / `max`): independent of the replica count. -/
+theorem broadcast_idempotent (g : Agg) (hg : (g == .min || g == .max) = true) (cfg : Cfg)
+    (c c' : Nat → Nat) (d : D) :
+    reduceS g (permBy c' ((broadcast (cfg.count .u) c d).map (reduceS g)).flatten) = reduceS g d.flatten :=
+  reduce_broadcast g hg _ (count_pos cfg .u) c c' d
+
+/-- the relational join respects multiset equality of its inputs (arrival orders do not matter) -/
+theorem join_orderInsensitive (v : JVar) (k1 k2 : V → V) {ls ls' rs rs' : List V} (hl : ls.Perm ls')
+    (hr : rs.Perm rs') : (joinS v k1 k2 ls rs).Perm (joinS v k1 k2 ls' rs') :=
+  joinS_perm v k1 k2 hl hr
+
+/-- **count windows with the counting aggregate are order insensitive**: per key, the multiset of
+    window results depends only on the number of that key's elements (so it is the same for every
+    arrival order, hence for every deployment once equal keys are co-located). -/
+theorem countWindow_cnt_orderInsensitive (n s : Nat) {l l' : List V} (h : l.Perm l') :
+    (keyedWinS n s .cnt l).Perm (keyedWinS n s .cnt l') := by
+  rw [keyedWinS_gen, keyedWinS_gen]
+  exact keyedGen_perm (keyedFn_win n s) h
+
+/-- **count windows (cnt) in parallel**: per-replica windows of a key-co-located partition, unioned =
+    windows of the whole keyed stream. -/
+theorem countWindow_cnt_parallel (h : V → Nat) (n s : Nat) (d : D) (hc : Coloc h d) :
+    (d.map (keyedWinS n s .cnt)).flatten = keyedWinS n s .cnt d.flatten := by
+  have ew : keyedWinS n s .cnt = keyedGen (ψWin n s) := funext (keyedWinS_gen n s)
+  rw [ew]
+  exact flatten_map_keyedGen d hc
+
+/-- **replay_seq / iterate_seq**: for EVERY loop specification (bodies are linear chains of `map`,
+    `filter`, `flat_map`, `shuffle`, state-reading `map`, `group_by_sum + drop_key`, `group_by_fold`,
+    `group_by + count windows (cnt)`, `reduce`, inner hash join with / merge of the loop's side input,
+    and nested `replay` / `iterate`, to any depth), every replica count `n ≥ 1`, every schedule, every
+    distribution `x` (at least one replica) of the input `y` and `sp` of the side input `ss` (the same
+    multiset every round: the cached side of binary.rs): the parallel loop protocol — each round the
+    body runs on the distributed stream, every replica of the last body block folds its share with
+    the local function (an empty replica sends the default), the leader folds the deltas in arrival
+    order with the global function — ends in the SAME state as the sequential loop (so it runs the
+    same number of rounds), and with `feedback = true` (`iterate`) delivers the same multiset of
+    items. The local / global pair is any aggregation of the library (`loc`/`glob`, two-phase
+    compatible: `F_append`). -/
+theorem replay_iterate_seq (feedback : Bool) (n : Nat) (hn : 0 < n) (o : Orc) (id fuel : Nat)
+    (sp : D) (ss : List V) (hsne : sp ≠ []) (hsp : sp.flatten.Perm ss)
+    (l : LoopSpec) (x : D) (y : List V) (hne : x ≠ []) (hp : x.flatten.Perm y) :
+    (l.parRun feedback n o id fuel sp x).1 = (l.run feedback fuel ss y).1 ∧
+    (l.parRun feedback n o id fuel sp x).2.flatten.Perm (l.run feedback fuel ss y).2 :=
+  ⟨(loopSpec_rel feedback n hn o id fuel sp ss hsne hsp l x y hne hp).1,
+   (loopSpec_rel feedback n hn o id fuel sp ss hsne hsp l x y hne hp).2.2⟩
+
+/-! ### Composition
+
+Node kinds COVERED by the composition theorem (a sink is covered iff every stage upstream of it is):
+  sources `iter`, `par`; `map`, `filter`, `fmap`; `shuffle`; `repl` (any replication — the model
+  treats it as an all-to-all link; `Replication::Host` = `cfg.hosts` replicas); `repart`; `bcast` with
+  `min`/`max`; `groupBy`; `keyBy`; `kmap`, `kfilter`; `kfold`, `kreduce`, `kwin` with the aggregate `cnt`
+  (on a co-located keyed stream: after `groupBy`, a `group_by_*`
+  stage, a hash join, or `keyBy` of a single-replica stream); `unkey`, `dropKey`; `fold`, `foldA`,
+  `reduce`, `reduceA`; `gbFold`, `gbReduce`, `gbSum`, `gbCount`; `merge`; `join` inner/left/outer ×
+  ship hash, inner/left × ship broadcast-right (any local algorithm: the model is the relational
+  join); `route`; `replay`, `iterate` with or without a side input (all body stages: stateless,
+  `shuffle`, `addst`, `gbsum`, `gbfold`, `gbwin`, `reduce`, `joinside`, `mergeside`, nested `replay` /
+  `iterate`); `sink`.
+NOT covered (their output is tagged `ok := false`, and so is everything downstream): `kwin` with an
+  aggregate other than `cnt` and `zip` (order sensitive), `kjoin` (keyed join: needs equal replica counts of two
+  co-located streams, not tracked by the tags), `kfold`/`kreduce` of a keyed stream that is not
+  co-located (`keyBy` of a multi-replica stream — genuinely deployment dependent), `bcast` with a
+  non-idempotent reduction (genuinely deployment dependent: `broadcast_sink_copies`), broadcast-right
+  + outer (not offered by the API).
+The tags are computed by `tagRun` (the sequential evaluator paired with `Tag`s);
+`orderInsensitive job` = all sinks covered, `coveredSinks job` lists them. -/
+
+/-- **parEval_perm_seqEval (per sink)**: for EVERY job (any DAG, any input), every replica-count
+    parameter and every schedule, the parallel evaluator delivers to the same sinks in the same
+    order, and every covered sink receives a permutation of its sequential value. -/
+theorem parEval_perm_seqEval_covered (job : Job) (cfg : Cfg) (o : Orc) :
+    All2 (fun p ts => p.1 = ts.1 ∧ (ts.2.1.ok = true → p.2.Perm ts.2.2)) (parEval cfg o job)
+      (tagRun job).sinks ∧
+    (tagRun job).sinks.map (fun ts => (ts.1, ts.2.2)) = seqEval job := by
+  constructor
+  · have h := (par_tag_rel cfg o job).2
+    unfold parEval
+    apply All2.map_left
+    exact h.imp fun x y hr => ⟨hr.1, hr.2⟩
+  · have h := (tag_seq_rel job).2
+    apply all2_eq_map
+    exact h.imp fun x y hr => by
+      obtain ⟨h1, h2⟩ := hr
+      simp only [ProjS] at h2
+      exact Prod.ext h1 h2
+
+/-- **parEval_perm_seqEval**: if every sink of the job is covered (`orderInsensitive job`, decidable),
+    then for every replica-count parameter and every schedule (hash function, routing choices,
+    arrival orders, order of the state deltas) the parallel evaluator delivers to the same sinks, in
+    the same order of sinks, a permutation of what the sequential evaluator delivers. -/
 theorem parEval_perm_seqEval (job : Job) (hj : orderInsensitive job = true) (cfg : Cfg) (o : Orc) :
-    All2 (fun p s => p.1 = s.1 ∧ p.2.Perm s.2) (parEval cfg o job) (seqEval job) :=
-  all2_sinks (run_rel cfg o job hj).2
+    All2 (fun p s => p.1 = s.1 ∧ p.2.Perm s.2) (parEval cfg o job) (seqEval job) := by
+  obtain ⟨h1, h2⟩ := parEval_perm_seqEval_covered job cfg o
+  rw [← h2]
+  apply All2.map_right
+  apply h1.imp_mem
+  intro p ts hts hr
+  have hok : ts.2.1.ok = true := by
+    have := List.all_eq_true.mp hj ts hts
+    simpa using this
+  exact ⟨hr.1, hr.2 hok⟩
 
 /-- **parEval_config_independent**: any two deployments / schedules give the same sink multisets. -/
 theorem parEval_config_independent (job : Job) (hj : orderInsensitive job = true)
     (cfg cfg' : Cfg) (o o' : Orc) :
     All2 (fun p q => p.1 = q.1 ∧ p.2.Perm q.2) (parEval cfg o job) (parEval cfg' o' job) :=
-  all2_perm_trans (parEval_perm_seqEval job hj cfg o) (parEval_perm_seqEval job hj cfg' o')
+  (parEval_perm_seqEval job hj cfg o).comp
+    ((parEval_perm_seqEval job hj cfg' o').flip) fun _ _ _ h1 h2 =>
+      ⟨h1.1.trans h2.1.symm, h1.2.trans h2.2.symm⟩
 
 /-! ### Non-vacuity -/
 
@@ -183,9 +310,38 @@ example : seqEval exampleJob =
 
 
 /-- the parallel run on 3 replicas really permutes (and agrees as a multiset, by the theorem) -/
-example : parEval ⟨3⟩ exampleOrc exampleJob =
+example : parEval ⟨3, 1⟩ exampleOrc exampleJob =
     [(8, [V.pair (.int 1) (.int 12), V.pair (.int 0) (.int 18), .int 8]),
      (9, [.int 6, .int 4, .int 7, .int 5, .int 8])] := by decide
+
+/-- joins, keyed reductions, a keyed two-phase stage, a loop with a nested-free body, `key_by` of a
+    single-replica stream (covered) and of a shuffled stream followed by a keyed fold (not covered) -/
+def exampleJob2 : Job :=
+  [⟨0, .iter [.int 3, .int 4, .int 5, .int 6]⟩,
+   ⟨1, .par 0 6⟩,
+   ⟨2, .join ⟨0, 0⟩ ⟨1, 0⟩ .left .hash .kmod 3 .kmod 3⟩,
+   ⟨3, .kreduce ⟨2, 0⟩ .max⟩,
+   ⟨4, .sink ⟨3, 0⟩⟩,
+   ⟨5, .gbSum ⟨1, 0⟩ .kmod 2⟩,
+   ⟨6, .sink ⟨5, 0⟩⟩,
+   ⟨7, .replay ⟨1, 0⟩ (some ⟨0, 0⟩) (.mk 2 1 .sum .true 0 [.addst 5, .shuffle, .gbwin .kmod 2 2 2, .mergeside])⟩,
+   ⟨8, .sink ⟨7, 0⟩⟩,
+   ⟨9, .keyBy ⟨0, 0⟩ .kmod 2⟩,
+   ⟨10, .kfold ⟨9, 0⟩ .cnt⟩,
+   ⟨11, .sink ⟨10, 0⟩⟩,
+   ⟨12, .shuffle ⟨0, 0⟩⟩,
+   ⟨13, .keyBy ⟨12, 0⟩ .kmod 2⟩,
+   ⟨14, .kfold ⟨13, 0⟩ .cnt⟩,
+   ⟨15, .sink ⟨14, 0⟩⟩]
+
+example : coveredSinks exampleJob2 = [4, 6, 8, 11] := by decide
+example : orderInsensitive exampleJob2 = false := by decide
+
+/-- the uncovered sink 15 really is deployment dependent: on 2 replicas the keyed fold after `key_by`
+    of a shuffled stream reports a key once per replica that holds it -/
+example : ((parEval ⟨2, 1⟩ ⟨fun v => v.proj.toNat, fun _ i => i / 2, fun _ _ => 0⟩ exampleJob2).filter
+      (·.1 == 15)).map (·.2.length) = [4] ∧
+    ((seqEval exampleJob2).filter (·.1 == 15)).map (·.2.length) = [2] := by decide
 
 /-- non-vacuity of `join_copartitioned`: two replicas, keys 0/2 on replica 0 and 1/3 on replica 1 -/
 example : CoPart (fun v => v.proj.toNat) id 2 0 [[.int 0, .int 2], [.int 1, .int 3]] := by
